@@ -63,7 +63,7 @@ S_TALES = [K("k3::S-Pipe3"), K("k3::S-Pipe-prefix-middle"), K("k3::S-Same-not-tw
 S_INTERP = [K("k3::S-Interp-braces"), K("k3::S-PI-interp"), K("k3::S-Cdata-entity"), K("k3::S-Cdata-twice"), K("k3::S-Interp-text"), K("k3::S-Interp-off"), K("k3::S-Interp-lines"),
             K("k3::S-Interp-percent"), K("k3::S-Cdata-then-text")]
 S_I18N = [K("k3::S-Translate-name"), K("k3::S-Translate-name-condition"), K("k3::S-Translate-id"), K("k3::S-Translate-empty"),
-          K("k3::S-I18nDomain"), K("k3::S-I18nContext"), K("k3::S-I18nTarget"), K("k3::S-I18nAttributes"), K("k3::S-I18nAttributes-two"), K("k3::S-I18nAttributes-implicit-interp"),
+          K("k3::S-I18nDomain"), K("k3::S-I18nContext"), K("k3::S-I18nTarget"), K("k3::S-I18nTarget-name"), K("k3::S-I18nContext-name"), K("k3::S-I18nContext-target-domain"), K("k3::S-I18nAttributes"), K("k3::S-I18nAttributes-two"), K("k3::S-I18nAttributes-implicit-interp"),
           K("k3::S-Content-translate")]
 S_METAL = [K("k3::S-UseExternal"), K("k3::S-MacroBody-slots-nonascii"), K("k3::S-ExtendMacro"), K("k3::S-UseExternal-filler-define"), K("k3::S-TemplateBody-slot"), K("k3::S-MacroUseInternal"), K("k3::S-MacroBody"), K("k3::S-TwoMacros"),
            K("k3::S-MacroBody-slot-define"),
